@@ -33,6 +33,11 @@ CHECKS = {
             "Each enumerated input is converted by the real code under a 30 s alarm; the outcome must be text or one of the documented refusal exceptions; acceptance must not depend on options or the procedure name.",
             "Documented refusals = parsimonious ParseError, compiler.ParseError, LineNumberTooLargeException, pydantic ValidationError; VisitationError counts as internal.",
             "DESIGN.md §2 C15"),
+    "C12": ("model_checking",
+            "exhaustive exploration of the only nondeterminism source (set iteration order, owned by rebinding `set` to an explorer-controlled ChoiceSet) + exhaustive call-history enumeration in fresh forked processes + hash-seed conformance sweep",
+            "For every program x option set every iteration order of each iterated set (<= d simultaneous deviations) must yield identical bytes; every call history up to the depth, run in a fresh process, must leave every alphabet element's output equal to a fresh process; 16+ PYTHONHASHSEED values agree.",
+            "Brace-written set literals would not be owned by the seam (none exist today); the seed sweep is the only cover for them.",
+            "DESIGN.md §2 C12"),
 }
 
 PENDING_REASON = "check not built yet in this revision (work in progress; will be claimed when its explorer exists)"
